@@ -1258,6 +1258,12 @@ def arr_squeeze(I, recv, args, kwargs):
         out.name = recv.name
         out._agg_key = agg_key(recv)
         return out
+    if ax is None and recv.ndim == 2 and ((not is_sym(recv.shape[1]) and recv.shape[1] == 1) or
+                                         (is_sym(recv.shape[1]) and I.ctx.entails(Eq(recv.shape[1], 1)))):
+        # (n, 1).squeeze(): the n values as a vector (for n == 1 numpy gives a 0-d array holding the same value: it broadcasts
+        # identically in the assignments / arithmetic that follow)
+        USED.add("(n, 1).squeeze() -> the n values as a vector")
+        return SArr((recv.shape[0],), lambda i: recv.fn(i, 0), recv.dtype, recv.kind)
     raise Undecided("squeeze")
 
 
@@ -1481,3 +1487,33 @@ def np_sqrt(I, args, kwargs):
     if isinstance(v, SArr):
         return ops.map_arr(v, lambda x: f(ops.as_real(x)), dtype="real")
     return f(ops.as_real(v))
+
+
+@lib("numpy.apply_along_axis")
+def np_apply_along_axis(I, args, kwargs):
+    """np.apply_along_axis(f, axis, arr) for a scalar-valued f along the LAST axis of a 3-d array: one call of f per 1-d
+    slice; recorded as one ghost event (function, axis, array), result (n, c) of uninterpreted values"""
+    from .libmodels import Event
+    f = arg(args, kwargs, 0, "func1d")
+    axis = arg(args, kwargs, 1, "axis")
+    a = to_arr(I, arg(args, kwargs, 2, "arr"))
+    if a.ndim != 3 or axis not in (2, -1):
+        raise Undecided("np.apply_along_axis pattern")
+    g = I.ctx.fresh_fun("apply_along_axis", z3.IntSort(), z3.IntSort(), z3.RealSort())
+    out = SArr((a.shape[0], a.shape[1]), lambda i, j: g(to_z3(i), to_z3(j)), "real", "ndarray")
+    USED.add("np.apply_along_axis(f, axis=2, arr): f applied to every 1-d slice arr[i, j, :] (recorded, values uninterpreted)")
+    I.ctx.trace.append(Event(None, "np.apply_along_axis", [f, axis, a], {}, out, getattr(I.ctx, "loop_k", None)))
+    return out
+
+
+@lib("scipy.signal.periodogram")
+def sp_periodogram(I, args, kwargs):
+    USED.add("scipy.signal.periodogram(X): (frequencies, power spectrum) -- opaque functions of X (provenance only)")
+    return SList([Opaque("periodogram frequencies", prov=("periodogram_freq", args[0])),
+                  Opaque("power spectrum", prov=("periodogram", args[0]))], "tuple")
+
+
+@lib("numpy.diff")
+def np_diff(I, args, kwargs):
+    USED.add("np.diff(X, n): opaque function of X (provenance only)")
+    return Opaque("differences", prov=("diff", args[0], arg(args, kwargs, 1, "n", 1)))
